@@ -189,6 +189,12 @@ def gen(rng, kind):
         if rng.random() < 0.35:
             prog.append((m[0], y) + tuple(m[2:]))
             muts.append(("both",))
+    if rng.random() < 0.15:
+        # the same element added at DIFFERENT new positions: equally many positions, different position sets
+        npos_now = 2 if any(o[0] == "SAddElement" and o[1] == s and o[2] == 2 for o in prog) else 1
+        m1, m2 = ("SAddElement", x, npos_now + 1, e), ("SAddElement", y, npos_now + 2, e)
+        prog += [m1, m2]
+        muts += [m1, m2]
     prog += [("OSEq", x, y), ("OSEq", y, x), ("OSEq", x, x), ("OSPoints", x), ("OSEq", x, y), ("OSDescr", x), ("OSDescr", y),
              ("OSForge", x, True, True, False), ("OSForge", y, True, True, False)]
     return {"prog": prog, "kind": "seq", "muts": [list(map(str, m)) for m in muts], "pair": [x, y]}
